@@ -92,6 +92,147 @@ def cells():
                          "mo = (sum (t : int[0,5]) (%s))" % stmt))
 
 
+# ---- constness buried inside composite types ---------------------------------------------------------------------------
+# a type is ("int",) | ("ci",) | ("arr", T) | ("rec", [(field, T), ...]); const enters only through the typedef `CI`
+def t_decl(t, name, defs, counter):
+    """C-style declaration of `name` with type t; struct types get typedefs appended to defs. Returns (prefix, suffix)."""
+    if t[0] == "int":
+        return "int", ""
+    if t[0] == "ci":
+        return "CI", ""
+    if t[0] == "arr":
+        pre, suf = t_decl(t[1], name, defs, counter)
+        return pre, "[2]" + suf
+    counter[0] += 1
+    tn = "R%d" % counter[0]
+    body = ""
+    for f, ft in t[1]:
+        pre, suf = t_decl(ft, f, defs, counter)
+        body += " %s %s%s;" % (pre, f, suf)
+    defs.append("typedef struct {%s } %s;" % (body, tn))
+    return tn, ""
+
+
+def t_init(t, k=[0]):
+    if t[0] in ("int", "ci"):
+        k[0] += 1
+        return str(k[0] % 5)
+    if t[0] == "arr":
+        return "{ %s, %s }" % (t_init(t[1]), t_init(t[1]))
+    return "{ " + ", ".join(t_init(ft) for _, ft in t[1]) + " }"
+
+
+def t_paths(t, prefix=""):
+    """(access path to a scalar, is_const, [array-valued prefixes with constness])"""
+    if t[0] == "int":
+        return [(prefix, False)]
+    if t[0] == "ci":
+        return [(prefix, True)]
+    if t[0] == "arr":
+        return [(p, c) for idx in ("[1]", "[m]") for p, c in t_paths(t[1], prefix + idx)][:4]
+    out = []
+    for f, ft in t[1]:
+        out += t_paths(ft, prefix + "." + f)
+    return out
+
+
+INT, CIT = ("int",), ("ci",)
+ARR = lambda t: ("arr", t)                              # noqa: E731
+REC = lambda *fs: ("rec", list(fs))                     # noqa: E731
+COMPOSITES = {
+    "array-of-const": ARR(CIT),
+    "matrix-of-const": ARR(ARR(CIT)),
+    "record-constarray-int": REC(("x", ARR(CIT)), ("y", INT)),
+    "record-int-constarray": REC(("y", INT), ("x", ARR(CIT))),
+    "record-constarray-array": REC(("x", ARR(CIT)), ("y", ARR(INT))),
+    "record-constmatrix-int": REC(("x", ARR(ARR(CIT))), ("y", INT)),
+    "array-of-record": ARR(REC(("x", ARR(CIT)), ("y", INT))),
+    "record-in-record": REC(("inner", REC(("x", ARR(CIT)), ("y", INT))), ("z", INT)),
+    "record-of-record-array": REC(("rs", ARR(REC(("x", ARR(CIT)), ("y", INT)))), ("z", INT)),
+    "record-only-constarray": REC(("x", ARR(CIT))),
+    "record-two-constarrays": REC(("x", ARR(CIT)), ("w", ARR(CIT)), ("y", INT)),
+}
+CWRITES = [("assign", "{X} = 1"), ("add-assign", "{X} += 1"), ("post-inc", "{X}++"), ("pre-dec", "--{X}"),
+           ("inline-if-else", "(b ? mo : {X}) = 1"), ("inline-if-then", "(b ? {X} : mo) = 1"), ("ref-arg-function", "wr({X})"),
+           ("ref-arg-function-chain", "wr2({X})")]
+
+
+def demote(t):
+    """the same type with every const leaf replaced by a mutable one: the mutable twin of a composite"""
+    if t[0] == "ci":
+        return INT
+    if t[0] == "arr":
+        return ("arr", demote(t[1]))
+    if t[0] == "rec":
+        return ("rec", [(f, demote(ft)) for f, ft in t[1]])
+    return t
+
+
+def composite_cells():
+    """(cell id, 'const '|'sibling'|''|'decl', document)"""
+    for cname, t0 in COMPOSITES.items():
+        for variant, t in (("const", t0), ("twin", demote(t0))):
+            defs, counter = [], [0]
+            pre, suf = t_decl(t, "s", defs, counter)
+            decl = "\n".join(defs) + "\n%s s%s = %s;\n" % (pre, suf, t_init(t))
+            yield ("composite-declaration:%s:%s" % (cname, variant), "decl", model(gdecl=decl, assign="mo = 1"))
+            for (path, _), (_, is_const) in zip(t_paths(t), t_paths(t0)):
+                for wid, wtext in CWRITES:
+                    for where in ("update", "function-body", "reference-parameter"):
+                        if where == "update":
+                            doc = model(gdecl=decl, assign=wtext.format(X="s" + path))
+                        elif where == "function-body":
+                            doc = model(gdecl=decl + "void fn() { %s; }" % wtext.format(X="s" + path), assign="fn()")
+                        else:
+                            doc = model(gdecl=decl + "void fn(%s &p%s) { %s; }" % (pre, suf, wtext.format(X="p" + path)), assign="fn(s)")
+                        role = ("const " if is_const else "sibling") if variant == "const" else ""
+                        yield ("composite:%s:%s:%s:%s:%s" % (cname, variant, "const-path" if is_const else "mutable-path", wid, where) + "|" + path,
+                               role, doc)
+
+
+def run_composites(arg):
+    i, n = arg
+    part = engine.Part()
+    w = engine.worker("fast")
+    allc = list(composite_cells())
+    decls = [c for c in allc if c[1] == "decl"]
+    dres = X.run_docs(w, [c[2] for c in decls], want=["noinv"], batch=50)
+    declarable = set()
+    for (cid, _, doc), r in zip(decls, dres):
+        if not r.get("died") and X.accepted(r):
+            declarable.add(tuple(cid.split(":")[1:3]))
+        elif i == 0:
+            part.add("composite_types_not_declarable", [cid])
+    cs = [c for k, c in enumerate(c for c in allc if c[1] != "decl" and tuple(c[0].split(":")[1:3]) in declarable) if k % n == i]
+    res = X.run_docs(w, [c[2] for c in cs], want=["noinv"], batch=50)
+    for (cid, c, doc), r in zip(cs, res):
+        part.count()
+        rp = {"op": "xml", "buf": doc}
+        if engine.check_crash(part, PID, r, cid, rp):
+            continue
+        part.nontrivial_case(cid)
+        acc = X.accepted(r)
+        sig = cid.split("|")[0]
+        if c == "sibling":
+            # a mutable field next to a const array inside one record: the library treats the whole object as not assignable;
+            # the statement does not settle this case, the verdict is recorded only
+            part.outcome("mutable-sibling-of-const-part-" + ("accepted" if acc else "rejected"))
+        elif c:
+            if acc:
+                part.outcome("const-write-accepted")
+                part.violation("const-write-accepted:" + sig, "%s: a write into a const element buried in a composite type is accepted" % cid, rp)
+            else:
+                part.outcome("const-write-rejected")
+        else:
+            if acc:
+                part.outcome("mutable-twin-accepted")
+            else:
+                part.outcome("mutable-twin-rejected")
+                part.violation("twin-rejected:" + sig, "%s: the same write to a mutable sibling of the const element is rejected: %s"
+                               % (cid, sorted(set(e["msg"] for e in r.get("errors", [])))[:2]), rp)
+    return part.result()
+
+
 def run_shard(arg):
     i, n = arg
     part = engine.Part()
@@ -131,10 +272,17 @@ def main():
                         "bounded typedef, array element with constant and variable index, struct field, array-of-struct field, matrix "
                         "element) x %d write forms (6 assignment operators, ++/-- pre/post, inline-if lvalue in either branch and "
                         "nested, chained assignment, non-const reference argument direct and through a chain): %d documents, every "
-                        "const cell paired with a mutable twin." % (len(WRITES), total))
+                        "const cell paired with a mutable twin. Plus constness buried in composite types: %d record/array compositions whose "
+                        "only const part is an array of a typedef'd const element, every scalar access path x 8 write forms x {update, "
+                        "function body, through a reference parameter of the composite type}; paths into the const array must be rejected, "
+                        "the same paths in the all-mutable twin of the type accepted (mutable siblings of a const part: verdict recorded only)."
+                        % (len(WRITES), total, len(COMPOSITES)))
     n = engine.ncpu()
     for res in engine.pmap(run_shard, [(i, n) for i in range(n)]):
         rep.merge(res)
+    for res in engine.pmap(run_composites, [(i, n) for i in range(n)]):
+        rep.merge(res)
+    rep.extra["composite_cells"] = sum(1 for c in composite_cells() if c[1] != "decl")
     rep.assumptions = ["quantifier binders have no mutable twin (a write inside a quantified body is rejected for C11's reason)",
                        "small scope: the listed shapes and write forms"]
     sys.exit(rep.finish())
